@@ -226,6 +226,7 @@ func swapIdx(r [27]int) [27]int {
 }
 
 type runLog struct {
+	idxMoved  int // the OTHER index register was seen changed by a device during the Step (at some access)
 	pre, post [27]int
 	halt      bool
 	rd        []uint16
@@ -236,6 +237,21 @@ type runLog struct {
 
 func runOnce(is *InitSpec, w *bufio.Writer) runLog {
 	m := NewMachine(is)
+	moved := 0
+	ix0, iy0 := uint16(is.R[16])<<8|uint16(is.R[17]), uint16(is.R[18])<<8|uint16(is.R[19])
+	first := -1
+	m.Mem.OnAny = func() {
+		// which form is it? the byte at PC when the Step starts
+		if first < 0 {
+			first = int(m.Mem.Inner.Get(uint16(is.R[21])))
+		}
+		if first == 0xdd && m.CPU.IY != iy0 {
+			moved = 1
+		}
+		if first == 0xfd && m.CPU.IX != ix0 {
+			moved = 1
+		}
+	}
 	if w != nil {
 		EmitInit(w, is)
 		m.StepAndEmit(w)
@@ -246,7 +262,7 @@ func runOnce(is *InitSpec, w *bufio.Writer) runLog {
 		}
 		m.CPU.Step()
 	}
-	l := runLog{pre: is.R, post: Regs(&m.CPU.States), halt: m.CPU.HALT}
+	l := runLog{pre: is.R, post: Regs(&m.CPU.States), halt: m.CPU.HALT, idxMoved: moved}
 	l.rd = append(l.rd, m.Mem.Rd...)
 	l.wr = append(l.wr, m.Mem.Wr...)
 	if m.IO != nil {
@@ -257,8 +273,8 @@ func runOnce(is *InitSpec, w *bufio.Writer) runLog {
 }
 
 func (l runLog) json() string {
-	return fmt.Sprintf(`{"pre":%s,"post":%s,"h":%d,"rd":%s,"wr":%s,"pio":%s,"md":%s}`,
-		jInts(l.pre[:]), jInts(l.post[:]), b2i(l.halt), jU16(l.rd), jPairs(l.wr), jTriples(l.pio), jPairs(l.md))
+	return fmt.Sprintf(`{"pre":%s,"post":%s,"h":%d,"rd":%s,"wr":%s,"pio":%s,"md":%s,"moved":%d}`,
+		jInts(l.pre[:]), jInts(l.post[:]), b2i(l.halt), jU16(l.rd), jPairs(l.wr), jTriples(l.pio), jPairs(l.md), l.idxMoved)
 }
 
 // EmitPair runs the DD form (given), the mirrored FD form, and both again with
@@ -581,6 +597,7 @@ func cmdBlocks(args []string) {
 	n := fs.Int("n", 20, "per-Step scenarios per shard")
 	whole := fs.Int("whole", 2, "whole-run scenarios per shard")
 	big := fs.Bool("big", false, "include 65,536-Step runs")
+	bare := fs.Bool("bare", false, "short DumbMemory attached directly; pointers around its end")
 	seed := fs.Int64("seed", 1, "seed")
 	fs.Parse(args)
 	rep := []int{0xb0, 0xb8, 0xb1, 0xb9, 0xb2, 0xba, 0xb3, 0xbb}
@@ -603,6 +620,33 @@ func cmdBlocks(args []string) {
 				cnt = []int{0, 1, 2, 0x100, 0xffff}[r.Intn(5)]
 			}
 			a := r.Intn(256)
+			if *bare { // pointers running off / onto the end of a short memory
+				L := []int{32768, 4096, 65535}[r.Intn(3)]
+				pc = r.Intn(L - 64)
+				hl = (L - 3 + r.Intn(6)) & 0xffff
+				if r.Intn(2) == 0 {
+					de = r.Intn(L - 64)
+				} else {
+					de, hl = hl, r.Intn(L-64)
+				}
+				cnt = 1 + r.Intn(8)
+				is := blockInit(r, op, cnt, hl, de, pc, a)
+				is.Bare = true
+				is.Dev = DevDesc{Kind: "dumb", Len: L}
+				for k := 0; k < 12; k++ { // some non-zero data inside the memory
+					is.Cells = append(is.Cells, [2]int{(L - 8 + k) & 0xffff, 1 + r.Intn(255)})
+					is.Cells = append(is.Cells, [2]int{(de + k) & 0xffff, 1 + r.Intn(255)})
+				}
+				is.Cells = dedupe(append(is.Cells[2:], is.Cells[:2]...))
+				m := NewMachine(is)
+				EmitInit(w, is)
+				for s := 0; s < 12; s++ {
+					if !safeStep(m, w) || int(m.CPU.PC) != pc {
+						break
+					}
+				}
+				continue
+			}
 			is := blockInit(r, op, cnt, hl, de, pc, a)
 			if op == 0xb1 || op == 0xb9 { // CPIR/CPDR: plant a match sometimes
 				if r.Intn(2) == 0 {
@@ -655,6 +699,109 @@ func cmdBlocks(args []string) {
 			m := NewMachine(is)
 			EmitInit(w, is)
 			m.WholeAndEmit(w)
+		}
+		w.Flush()
+		f.Close()
+	}
+}
+
+// ---------------------------------------------------------------------------
+// bare1: single Steps with the REAL memory types attached directly to the CPU
+// (no recording wrapper), so that type-specific fast paths in the package are
+// exercised: DumbMemory of several lengths (pointers, SP and immediate
+// addresses biased to the last bytes of the slice and to the 64K wrap),
+// MapMemory and the 64K array. Registers and the full memory image are compared.
+
+func cmdBare1(args []string) {
+	fs := flag.NewFlagSet("bare1", flag.ExitOnError)
+	out := fs.String("out", "", "output directory")
+	shards := fs.Int("shards", 16, "shards")
+	n := fs.Int("n", 600, "Steps per shard")
+	seed := fs.Int64("seed", 1, "seed")
+	fs.Parse(args)
+	lens := []int{65536, 32768, 65535, 256, 4096, 65536}
+	for sh := 0; sh < *shards; sh++ {
+		r := rand.New(rand.NewSource(*seed*8191 + int64(sh)))
+		f, w := openShard(*out, sh)
+		for i := 0; i < *n; i++ {
+			k := (i*7 + sh*131) % (NTables * 256)
+			is := RandInit(r, k/256, k%256)
+			is.Bare = true
+			L := 65536
+			switch i % 4 {
+			case 0, 1:
+				L = lens[r.Intn(len(lens))]
+				is.Dev = DevDesc{Kind: "dumb", Len: L}
+			case 2:
+				is.Dev = DevDesc{Kind: "map", Val: 0xc7, Len: 65536}
+			default:
+				is.Dev = DevDesc{Kind: "hash", Seed: r.Intn(1000), Len: 65536}
+			}
+			// keep the instruction inside the memory, aim pointers at its last bytes
+			pc := r.Intn(L-8+1) & 0xffff
+			if L < 16 {
+				pc = 0
+			}
+			if r.Intn(3) == 0 && L == 65536 {
+				pc = []int{0xfffc, 0xfffd, 0xfffe, 0xffff}[r.Intn(4)]
+			}
+			if r.Intn(4) == 0 && L < 65536 { // the instruction running off the end of a short memory (reads 0 there)
+				pc = (L - 3 + r.Intn(6)) & 0xffff
+			}
+			edge := func() int { return (L - 2 + r.Intn(4)) & 0xffff }
+			old := is.R[21]
+			is.R[21] = pc
+			if r.Intn(2) == 0 {
+				is.R[20] = edge() // SP
+			}
+			if r.Intn(2) == 0 {
+				v := edge()
+				is.R[6], is.R[7] = v>>8, v&255 // HL
+			}
+			if r.Intn(3) == 0 {
+				v := edge()
+				is.R[16], is.R[17] = v>>8, v&255
+				is.R[18], is.R[19] = v>>8, v&255
+			}
+			var cells [][2]int
+			for _, c := range is.Cells { // move the instruction bytes to the new PC
+				d := (c[0] - old) & 0xffff
+				if d < 8 {
+					cells = append(cells, [2]int{(pc + int(d)) & 0xffff, c[1]})
+				}
+			}
+			if r.Intn(2) == 0 && len(cells) >= 3 { // immediate word aimed at the edge (LD (nn),rr etc.)
+				v := edge()
+				tbl := k / 256
+				off := 1
+				if tbl >= 2 && tbl <= 4 {
+					off = 2
+				}
+				for j := range cells {
+					if cells[j][0] == (pc+off)&0xffff {
+						cells[j][1] = v & 255
+					}
+					if cells[j][0] == (pc+off+1)&0xffff {
+						cells[j][1] = v >> 8
+					}
+				}
+			}
+			if r.Intn(4) == 0 {
+				is.Pend = [][]int{{0}, {1}, {1, 0xff}, {1, r.Intn(256)}}[r.Intn(4)]
+				is.R[24] = 1
+			}
+			// non-zero bytes where a wrong wrap would land (start of the memory) and around the end
+			for _, a := range []int{0, 1, 2, L - 1, L - 2} {
+				if a >= 0 && r.Intn(2) == 0 {
+					cells = append([][2]int{{a & 0xffff, 1 + r.Intn(255)}}, cells...)
+				}
+			}
+			is.Cells = dedupe(cells)
+			m := NewMachine(is)
+			EmitInit(w, is)
+			if !safeStep(m, w) {
+				continue
+			}
 		}
 		w.Flush()
 		f.Close()
